@@ -30,7 +30,15 @@ KINDS = {
     'fn': ('fill', V('m'), C(0x55)),
     'z0': ('zero', C(0)),
     'm2': ('instr', 'nn2', None),
+    # a line in a muted region: it emits nothing and collides with nothing, but lies between the others in address order
+    'mu1': [('mute',), ('data', '.byte', [C(7)]), ('unmute',)],
+    'mu3': [('mute',), ('data', '.byte', [C(7), C(8), C(9)]), ('unmute',)],
 }
+
+
+def place(a, kind):
+    k = KINDS[kind]
+    return [('org', V(a), None)] + (list(k) if isinstance(k, list) else [k])
 
 
 def mk(sid, prog, consts, files=None, binary=False, expect=None, **cfg):
@@ -41,7 +49,13 @@ def mk(sid, prog, consts, files=None, binary=False, expect=None, **cfg):
         cs['m'] = (0, 3)
     p = {'main.asm': prog}
     p.update(files or {})
-    nz = sum(1 for f in p.values() for st in f if st[0] in ('instr', 'data', 'fill', 'zero') and st != KINDS['z0'])
+    nz, mut = 0, False
+    for f in p.values():
+        for st in f:
+            if st[0] in ('mute', 'unmute'):
+                mut = st[0] == 'mute'
+            elif st[0] in ('instr', 'data', 'fill', 'zero') and st != KINDS['z0'] and not mut:
+                nz += 1
     nz += len(cfg.get('data_blocks', ()))
     return LayoutShape(sid, prog=p, cfgargs=dict(consts=cs, **cfg), props=['C04'], binary=binary, width=24,
                        expect=expect or (['ok', 'rejected'] if nz >= 2 else ['ok']))
@@ -53,7 +67,7 @@ def shapes(tier, seed):
     for a, b in pairs:
         syms = ['a0', 'a1'] + (['n'] if 'zn' in (a, b) else []) + (['m'] if 'fn' in (a, b) else [])
         S.append(mk(f'pair:{a}-{b}', [('org', V('a0'), None), KINDS[a], ('org', V('a1'), None), KINDS[b]], syms, binary=True))
-    triples = [('i3', 'd2', 'd4'), ('d4', 'zn', 'i1'), ('z0', 'd4', 'i3'), ('m2', 'd2', 'i1')]
+    triples = [('i3', 'd2', 'd4'), ('d4', 'zn', 'i1'), ('z0', 'd4', 'i3'), ('m2', 'd2', 'i1'), ('d4', 'mu1', 'i3'), ('mu3', 'd4', 'd2')]
     if tier != 'quick':
         triples += [('fn', 'i3', 'zn'), ('d2', 'd2', 'd2'), ('i1', 'z0', 'i1')]
     for t in triples:
@@ -61,7 +75,7 @@ def shapes(tier, seed):
         for o in orders:
             prog = []
             for idx in o:
-                prog += [('org', V(f'a{idx}'), None), KINDS[t[idx]]]
+                prog += place(f'a{idx}', t[idx])
             syms = ['a0', 'a1', 'a2'] + (['n'] if 'zn' in t else []) + (['m'] if 'fn' in t else [])
             S.append(mk(f'triple:{"-".join(t)}:{"".join(map(str, o))}', prog, syms))
     # first line placed by the default origin, second by .org; second region follows the first without .org
